@@ -799,13 +799,13 @@ pub static C06: PropDef = PropDef {
 pub static C07: PropDef = PropDef {
     id: "C07",
     prefixes: &["C07/"],
-    rule: "same generated runs as C06, plus (1 case in 25) iterator scenarios with the info-carrying exfiltrators, whose per-signal channels (signals 1, 12 and the real-time 64) are judged by the same cell rules; oracle: vector-clock race check on the CellWrite/CellTake events (declared orderings), strict write/take alternation per cell, drop ledger ==1 per sent value, discarded values dropped inside send. Non-trivial = overlapping operations or nested operation; distinct = hash of realised interleaving",
+    rule: "(worker 0 also runs a real-thread stress: a reader draining pending() of a raw / origin instance, a thread repeating add_signal calls the OS rejects, real deliveries, freed blocks poisoned by the harness allocator) same generated runs as C06, plus (1 case in 25) iterator scenarios with the info-carrying exfiltrators, whose per-signal channels (signals 1, 12 and the real-time 64) are judged by the same cell rules; oracle: vector-clock race check on the CellWrite/CellTake events (declared orderings), strict write/take alternation per cell, drop ledger ==1 per sent value, discarded values dropped inside send. Non-trivial = overlapping operations or nested operation; distinct = hash of realised interleaving",
     assumptions: ASSUME,
     cases: (4000, 100_000),
     shrink_iters: 4000,
     worker,
     replay,
-    extra: None,
+    extra: Some(reinit_stress),
 };
 
 pub static C08: PropDef = PropDef {
@@ -872,5 +872,75 @@ fn soak(def: &PropDef, args: &WorkerArgs, report: &mut WorkerReport) {
     rep.sample = Some(json!({"soak": {"rounds": rounds}}));
     if let Some(v) = report.absorb(def, &rep, &known) {
         report.violation = Some((v.key, v.msg, json!({"Soak": {"rounds": rounds}})));
+    }
+}
+
+/// Real-thread stress (worker 0 of C07): one thread keeps draining `pending()` of an instance
+/// with an info-carrying exfiltrator while another keeps calling `add_signal` with numbers the OS
+/// rejects (each attempt prepares the slot's channel before it fails) and a third delivers real
+/// signals. The harness allocator poisons freed blocks, so a channel that is freed or replaced
+/// while the reader may still be inside it shows as a panic or a crash of the child.
+fn reinit_stress(def: &PropDef, args: &WorkerArgs, report: &mut WorkerReport) {
+    use crate::forkrun::{emit, fork_stream, End};
+    use signal_hook::iterator::exfiltrator::{WithOrigin, WithRawSiginfo};
+    use signal_hook::iterator::SignalsInfo;
+    let known = Known::load();
+    let rounds: u32 = if args.tier == Tier::Thorough { 3_000_000 } else { 150_000 };
+    for exf in 0..2u8 {
+        let (recs, end) = fork_stream(60_000, move |fd| {
+            vsched::install();
+            crate::forkrun::ignore_sigpipe();
+            fn run<E: signal_hook::iterator::exfiltrator::Exfiltrator + Default + 'static>(rounds: u32) -> bool
+            where
+                E::Output: Send,
+            {
+                let mut signals = SignalsInfo::<E>::new(&[libc::SIGUSR1]).expect("instance");
+                let handle = signals.handle();
+                let stop = Arc::new(std::sync::atomic::AtomicBool::new(false));
+                let s2 = stop.clone();
+                let reader = std::thread::spawn(move || {
+                    let r = std::panic::catch_unwind(std::panic::AssertUnwindSafe(|| {
+                        while !s2.load(Ordering::SeqCst) {
+                            for _ in signals.pending() {}
+                        }
+                    }));
+                    r.is_ok()
+                });
+                let h2 = handle.clone();
+                let adder = std::thread::spawn(move || {
+                    for i in 0..rounds {
+                        let _ = h2.add_signal([65, 127, 33][i as usize % 3]);
+                    }
+                });
+                for _ in 0..rounds / 50 {
+                    unsafe { libc::raise(libc::SIGUSR1) };
+                }
+                let _ = adder.join();
+                stop.store(true, Ordering::SeqCst);
+                reader.join().unwrap_or(false)
+            }
+            let ok = if exf == 0 { run::<WithRawSiginfo>(rounds) } else { run::<WithOrigin>(rounds) };
+            emit(fd, &json!({"k": "stress", "reader_ok": ok}));
+            emit(fd, &json!({"k": "done"}));
+        });
+        let mut rep = CaseReport::default();
+        rep.hash = hash_of(&("reinit-stress", exf, rounds));
+        rep.class("reinit-stress");
+        rep.nontrivial = true;
+        rep.sample = Some(json!({"reinit_stress": {"exfiltrator": exf, "rounds": rounds}, "records": recs, "end": format!("{:?}", end)}));
+        match end {
+            End::Exited(0) if recs.iter().any(|r| r["k"] == "done") => {
+                if recs.iter().any(|r| r["k"] == "stress" && r["reader_ok"] != true) {
+                    rep.viol("C07/channel-panic", "a reader draining pending() panicked while another thread repeated add_signal calls that fail: the channel it was reading had been freed or replaced under it".into());
+                }
+            }
+            End::Signaled(s) => rep.viol("C07/channel-panic", format!("reader / adder stress: the process was killed by signal {} (memory of a channel reused while in use)", s)),
+            End::Timeout => rep.inconclusive = Some("reinit stress timed out".into()),
+            other => rep.inconclusive = Some(format!("reinit stress ended {:?}", other)),
+        }
+        if let Some(v) = report.absorb(def, &rep, &known) {
+            report.violation = Some((v.key, v.msg, json!({"Soak": {"rounds": rounds}})));
+            return;
+        }
     }
 }
